@@ -25,23 +25,23 @@ import (
 )
 
 type Violation struct {
-	Property string            `json:"property"`
-	Class    string            `json:"class"`
-	Key      string            `json:"key"`
-	Detail   string            `json:"detail"`
-	Seed     int64             `json:"seed"`
-	Run      int64             `json:"run"`
-	Tier     string            `json:"tier"`
-	Pin      string            `json:"pin,omitempty"`
-	Extra    map[string]string `json:"extra,omitempty"`
-	Trace    []uint64          `json:"trace"`
-	Labels   []string          `json:"labels,omitempty"`
-	Shrunk   bool              `json:"shrunk"`
-	Calls    int               `json:"shrink_calls,omitempty"`
-	Fp       uint64            `json:"fingerprint"`
-	Stderr   string            `json:"stderr,omitempty"`
-	Killed   bool              `json:"killed_worker,omitempty"`
-	ReplayCmd string           `json:"replay_cmd,omitempty"`
+	Property  string            `json:"property"`
+	Class     string            `json:"class"`
+	Key       string            `json:"key"`
+	Detail    string            `json:"detail"`
+	Seed      int64             `json:"seed"`
+	Run       int64             `json:"run"`
+	Tier      string            `json:"tier"`
+	Pin       string            `json:"pin,omitempty"`
+	Extra     map[string]string `json:"extra,omitempty"`
+	Trace     []uint64          `json:"trace"`
+	Labels    []string          `json:"labels,omitempty"`
+	Shrunk    bool              `json:"shrunk"`
+	Calls     int               `json:"shrink_calls,omitempty"`
+	Fp        uint64            `json:"fingerprint"`
+	Stderr    string            `json:"stderr,omitempty"`
+	Killed    bool              `json:"killed_worker,omitempty"`
+	ReplayCmd string            `json:"replay_cmd,omitempty"`
 	// Prelude: run indices executed in the same process before the replayed run (see the worker)
 	Prelude []int64 `json:"prelude,omitempty"`
 }
@@ -82,20 +82,20 @@ type KnownFinding struct {
 }
 
 type propMeta struct {
-	Level       string
-	Race        bool
-	QuickRuns   int64
-	ThoroughRuns int64
-	MemLimitKB  int64 // ulimit -v for workers (0 = none)
-	RunTimeout  time.Duration // watchdog: max wall time of a whole worker in quick tier
-	ColdQuick, ColdThorough int64 // extra runs, each in its own fresh process (lazily initialised library state is cold)
-	Rule        string
-	Assumptions []string
-	Real        []string
-	Simulated   []string
-	EvalsAre    string
-	CrashClass  string // class assigned to a worker death that is not a race report
-	ExpectProbes []string // "rare condition reached" probes that must not stay at zero (reported, never changes the exit code)
+	Level                   string
+	Race                    bool
+	QuickRuns               int64
+	ThoroughRuns            int64
+	MemLimitKB              int64         // ulimit -v for workers (0 = none)
+	RunTimeout              time.Duration // watchdog: max wall time of a whole worker in quick tier
+	ColdQuick, ColdThorough int64         // extra runs, each in its own fresh process (lazily initialised library state is cold)
+	Rule                    string
+	Assumptions             []string
+	Real                    []string
+	Simulated               []string
+	EvalsAre                string
+	CrashClass              string   // class assigned to a worker death that is not a race report
+	ExpectProbes            []string // "rare condition reached" probes that must not stay at zero (reported, never changes the exit code)
 }
 
 var commonReal = []string{"the whole gohessian package (instrumented scratch copy of /repo's working tree)", "reflect", "the Go runtime"}
@@ -114,9 +114,9 @@ var meta = map[string]*propMeta{
 		Rule: "one run = one pool (NewSerializerPool / NewEncoderPool / NewDecoderPool, size 0..8) and 1..64 client tasks with drawn Get/use/Return scripts (a task may hold up to 4 objects), executed under the seeded cooperative scheduler (random / round-robin / PCT, mean quantum 1..100 library statements, preemption inside Get and Return), optionally with stalled and abandoning holders; followed by a drain of size+2 Gets. Checked: ownership table after every event, fake-clock block detection, caller's own statements per call, porcupine on the recorded history against a nondeterministic pool model, race detector. A run is non-trivial when at least one context switch or scheduler fault happened; distinct = distinct fingerprints of the scheduling + event log.",
 		Assumptions: []string{"objects are identified by pointer and kept reachable until the run ends", "a history on which porcupine times out (8 s) is inconclusive: counted, never reported, never a pass",
 			"preemption is at statement granularity (instrumented copy); intra-statement conflicts are the race detector's job"},
-		Real: append([]string{"pool.go and the factories (real encoders / decoders / serializers)", "Go race detector (made schedule-deterministic by the RaceDisable bracket)", "porcupine v1.3.0"}, commonReal...),
+		Real:      append([]string{"pool.go and the factories (real encoders / decoders / serializers)", "Go race detector (made schedule-deterministic by the RaceDisable bracket)", "porcupine v1.3.0"}, commonReal...),
 		Simulated: []string{"caller goroutine scheduling (one task unparked at a time, choice stream decides)", "fake clock (testing/synctest) for block detection", "logger (no-op)"},
-		EvalsAre: "simulated runs",
+		EvalsAre:  "simulated runs",
 	},
 	"C06": {
 		Level: "exploration", QuickRuns: 12000, ThoroughRuns: 400000,
@@ -128,9 +128,9 @@ var meta = map[string]*propMeta{
 	},
 	"C11": {
 		Level: "exploration", QuickRuns: 16000, ThoroughRuns: 400000,
-		Rule: "one run = one instance (Serializer or Encoder+Decoder over private copies of the complete maps) driven through a seeded history of 0..30 calls {encode, encode of an unrepresentable value, WriteTo aborted half-way by a writer fault at a drawn Write index and kind, decode, decode of a cut/reset/damaged stream (possibly panicking; harness recovers), streaming writes / reads, Reset}, each with a different drawn value; then a probe {Encode/ToBytes, WriteTo, Decode/ToObject, ReadFrom} on the used instance and on a fresh one: bytes, canonical value (incl. dynamic types and pointer identity) and masked error must be identical. Around every call the value passed in, the bytes passed in and both maps are snapshotted and compared; results of earlier calls are re-compared after every later call. 30% of the runs instead enumerate EVERY abort point (every Write index x 9 kinds / every cut offset) of one value followed by a probe. evaluations = probe comparisons. Non-trivial = history non-empty or enumerating mode; distinct = distinct (history, draws) fingerprints.",
+		Rule:        "one run = one instance (Serializer or Encoder+Decoder over private copies of the complete maps) driven through a seeded history of 0..30 calls {encode, encode of an unrepresentable value, WriteTo aborted half-way by a writer fault at a drawn Write index and kind, decode, decode of a cut/reset/damaged stream (possibly panicking; harness recovers), streaming writes / reads, Reset}, each with a different drawn value; then a probe {Encode/ToBytes, WriteTo, Decode/ToObject, ReadFrom} on the used instance and on a fresh one: bytes, canonical value (incl. dynamic types and pointer identity) and masked error must be identical. Around every call the value passed in, the bytes passed in and both maps are snapshotted and compared; results of earlier calls are re-compared after every later call. 30% of the runs instead enumerate EVERY abort point (every Write index x 9 kinds / every cut offset) of one value followed by a probe. evaluations = probe comparisons. Non-trivial = history non-empty or enumerating mode; distinct = distinct (history, draws) fingerprints.",
 		Assumptions: []string{"map iteration order inside writeMap is pinned by the instrumentation seam, so byte equality is meaningful", "error texts are compared with pointer values masked"},
-		Real: append([]string{"bufio.Reader, bytes.Buffer"}, commonReal...), Simulated: []string{"destination io.Writer (fault-injecting)", "source reader (cut / reset / damaged)", "map iteration order (seeded)", "logger (no-op)"},
+		Real:        append([]string{"bufio.Reader, bytes.Buffer"}, commonReal...), Simulated: []string{"destination io.Writer (fault-injecting)", "source reader (cut / reset / damaged)", "map iteration order (seeded)", "logger (no-op)"},
 		EvalsAre: "probe comparisons (used instance vs fresh instance)",
 	},
 	"C12": {
@@ -139,9 +139,9 @@ var meta = map[string]*propMeta{
 		Assumptions: []string{"a result mismatch that also shows when the same scripts run strictly one task after another is a reuse defect (C11), counted as a probe and not reported under C12",
 			"conflicts are found only on paths the scripts execute; the statement's static clause (no write to package-level state anywhere reachable) is not decided by this technique",
 			"preemption is at statement granularity; intra-statement conflicts are found by the race detector, not by the result oracle"},
-		Real: append([]string{"pool.go (when pooled)", "bufio.Reader, bytes.Buffer", "Go race detector (schedule-deterministic through the RaceDisable bracket)"}, commonReal...),
+		Real:      append([]string{"pool.go (when pooled)", "bufio.Reader, bytes.Buffer", "Go race detector (schedule-deterministic through the RaceDisable bracket)"}, commonReal...),
 		Simulated: []string{"caller goroutine scheduling", "fake clock (testing/synctest) for block detection", "map iteration order inside writeMap (seeded)", "logger (no-op)"},
-		EvalsAre: "simulated runs",
+		EvalsAre:  "simulated runs",
 	},
 	"C14": {
 		Level: "exploration", QuickRuns: 3200, ThoroughRuns: 60000, MemLimitKB: 6 << 20,
@@ -182,19 +182,19 @@ func trouble(format string, a ...interface{}) {
 }
 
 type workerArgs struct {
-	Prop   string `json:"prop"`
-	Mode   string `json:"mode"`
-	Seed   int64  `json:"seed"`
-	From   int64  `json:"from"`
-	Stride int64  `json:"stride"`
-	Count  int64  `json:"count"`
-	Tier   string `json:"tier"`
-	Out    string `json:"out"`
-	Cur    string `json:"cur"`
-	File   string `json:"file"`
-	Budget int    `json:"budget"`
-	Known  string `json:"known"`
-	Labels bool   `json:"labels"`
+	Prop     string `json:"prop"`
+	Mode     string `json:"mode"`
+	Seed     int64  `json:"seed"`
+	From     int64  `json:"from"`
+	Stride   int64  `json:"stride"`
+	Count    int64  `json:"count"`
+	Tier     string `json:"tier"`
+	Out      string `json:"out"`
+	Cur      string `json:"cur"`
+	File     string `json:"file"`
+	Budget   int    `json:"budget"`
+	Known    string `json:"known"`
+	Labels   bool   `json:"labels"`
 	TraceOut string `json:"trace_out"`
 }
 
@@ -315,6 +315,9 @@ func classify(m *propMeta, pr *procResult) (class, key string) {
 		return strings.ToLower(prop) + "/blocked", "deadlock"
 	case strings.Contains(pr.Stderr, "stack overflow") || strings.Contains(pr.Stderr, "goroutine stack exceeds"):
 		return strings.ToLower(prop) + "/crash", "stack-overflow"
+	case pr.ExitCode == 7:
+		// the worker met library-owned goroutines (see the worker's UNSUPPORTED line): a limitation
+		return "cross-bubble", ""
 	case strings.Contains(pr.Stderr, "from outside bubble"):
 		// the library kept a channel / timer that was created in an earlier run's bubble (package-level state
 		// crossing simulation runs): a limitation of running many runs per process, not a verdict
@@ -719,7 +722,7 @@ func main() {
 	}
 
 	if viol == nil && crossBubble != "" {
-		trouble("the library keeps a channel or timer created in one simulation run and uses it in a later one (package-level state); the simulator runs many runs per process, each in its own synctest bubble, and cannot continue. No violation was found in the runs that completed. %s", crossBubble)
+		trouble("the library does something the simulator cannot represent: it runs goroutines of its own (the simulator schedules caller tasks only), or it keeps a channel or timer created in one simulation run and uses it in a later one (many runs share a process, each in its own synctest bubble). No verdict: no violation was found in the runs that completed. %s", crossBubble)
 	}
 	exit := 0
 	var replayPath string
@@ -907,26 +910,26 @@ func main() {
 		}
 	}
 	cov := map[string]interface{}{
-		"evaluations":         maxI64(agg.Evals, agg.Runs),
-		"evaluations_are":     m.EvalsAre,
-		"distinct_nontrivial": distinct,
-		"rule":                m.Rule,
-		"samples":             samples,
-		"runs":                agg.Runs,
-		"runs_skipped":        agg.Skipped,
-		"runs_nontrivial":     agg.Nontrivial,
-		"runs_per_hour":       int64(float64(agg.Runs) / wall * 3600),
-		"seeds":               fmt.Sprintf("VERIF_SEED=%d, run indices 0..%d (one PRNG stream per (seed, index))", seed, total-1),
+		"evaluations":          maxI64(agg.Evals, agg.Runs),
+		"evaluations_are":      m.EvalsAre,
+		"distinct_nontrivial":  distinct,
+		"rule":                 m.Rule,
+		"samples":              samples,
+		"runs":                 agg.Runs,
+		"runs_skipped":         agg.Skipped,
+		"runs_nontrivial":      agg.Nontrivial,
+		"runs_per_hour":        int64(float64(agg.Runs) / wall * 3600),
+		"seeds":                fmt.Sprintf("VERIF_SEED=%d, run indices 0..%d (one PRNG stream per (seed, index))", seed, total-1),
 		"simulated_time_steps": agg.Steps,
-		"faults_fired":        agg.Faults,
-		"probes":              agg.Probes,
-		"probes_at_zero":      zeroProbes,
-		"instrumented_sites":  agg.Sites,
-		"components_real":     m.Real,
+		"faults_fired":         agg.Faults,
+		"probes":               agg.Probes,
+		"probes_at_zero":       zeroProbes,
+		"instrumented_sites":   agg.Sites,
+		"components_real":      m.Real,
 		"components_simulated": m.Simulated,
-		"determinism_recheck": det,
-		"known_findings":      knownLines,
-		"exhaustive":          false,
+		"determinism_recheck":  det,
+		"known_findings":       knownLines,
+		"exhaustive":           false,
 	}
 	ev := map[string]interface{}{
 		"property_id": prop,
